@@ -85,7 +85,9 @@ def fam_term(fam, lazy):
                 if m in MIXIN_FMTS:
                     u, p = MIXIN_FMTS[m]
                     fmts.append(f"({FMT_ID[u]}, {FMT_ID[p]})")
-        fields = [f"(FD {t[1]} {spec_id(t[3])})" for _, t in F.all_fields(fam, i) if t[0] == "dc"]
+        ghost = len(fam["classes"])      # a class id that is never defined: its name is never bound
+        fields = [f"(FD {t[1]} {spec_id(t[3])})" if t[0] == "dc" else f"(FD {ghost} 0)"
+                  for _, t in F.all_fields(fam, i) if t[0] in ("dc", "ghost")]
         out.append(f"(CD {b(lazy[i] and c['kind'] == 'mixin')} {b(c['dsup'])} [{'; '.join(fmts)}] [{'; '.join(fields)}])")
     return "[" + "; ".join(out) + "]"
 
@@ -112,6 +114,8 @@ def outcome_kind(out, aux_rec=None):
     re-dispatch, 4 RecursionError in nested compilation, None = an outcome the model does not talk about"""
     if out[0] == "OK":
         return 0
+    if "UnresolvedTypeReferenceError" in (out[1], out[3] if len(out) > 3 else "") or (len(out) > 4 and "unresolved type reference" in out[4]):
+        return 5
     if out[1] == "RecursionError":
         return {"redispatch": 3, "build-cycle": 4}.get(aux_rec)
     if len(out) > 4 and out[3] == "AttributeError":
